@@ -15,6 +15,11 @@ const (
 )
 
 func Fallocate(fd int, mode uint32, off int64, length int64) error {
+	if mode&0x02 != 0 {
+		if err := vos.BeforeZero(fd); err != nil {
+			return syscall.EIO
+		}
+	}
 	err := syscall.Fallocate(fd, mode, off, length)
 	if err == nil && mode&0x02 != 0 {
 		vos.LogZero(fd, off, length)
